@@ -316,6 +316,82 @@ func (c *Ctx) VerifiedBeforeSuccess(prop string) {
 			c.R.OK(rule, Fn(D)+":windows:"+ck.name, c.Pos(verify), "every window iteration ends only past ["+ck.name+"]")
 		}
 	}
+	// coverage: with n confirmation signatures and windows of t, the loop runs n+1-t times and window i holds the
+	// signatures i .. i+t-1, so every participant's signature is in a verified window
+	{
+		strip := func(v ssa.Value) ssa.Value {
+			for {
+				switch x := v.(type) {
+				case *ssa.Convert:
+					v = x.X
+				case *ssa.ChangeType:
+					v = x.X
+				default:
+					return v
+				}
+			}
+		}
+		var tVal ssa.Value
+		if mk, ok := sliceRootExact(recover.Common().Args[len(recover.Common().Args)-2]).(*ssa.MakeSlice); ok {
+			tVal = strip(mk.Len)
+		}
+		isLen := func(v ssa.Value) bool {
+			call, ok := v.(*ssa.Call)
+			return ok && isBuiltin(call, "len")
+		}
+		okBound := false
+		if b, ok := strip(win.Bound).(*ssa.BinOp); ok && tVal != nil {
+			switch {
+			case b.Op == token.SUB && strip(b.Y) == tVal: // (len + 1) - t
+				if a, ok := b.X.(*ssa.BinOp); ok && a.Op == token.ADD {
+					okBound = (isLen(a.X) && an.IsConstInt(a.Y, 1)) || (isLen(a.Y) && an.IsConstInt(a.X, 1))
+				}
+			case b.Op == token.ADD: // (len - t) + 1
+				for _, side := range [][2]ssa.Value{{b.X, b.Y}, {b.Y, b.X}} {
+					if sub, ok := side[0].(*ssa.BinOp); ok && sub.Op == token.SUB && isLen(sub.X) && strip(sub.Y) == tVal && an.IsConstInt(side[1], 1) {
+						okBound = true
+					}
+				}
+			}
+		}
+		var inner *RotLoop
+		for _, l := range FindRotLoops(W) {
+			if l != win && win.Body[l.Head] && tVal != nil && strip(l.Bound) == tVal {
+				inner = l
+			}
+		}
+		nshift := 0
+		okIdx := inner != nil
+		if inner != nil {
+			for b := range inner.Body {
+				for _, ins := range b.Instrs {
+					ia, ok := ins.(*ssa.IndexAddr)
+					if !ok {
+						continue
+					}
+					if mk, isMk := sliceRootExact(ia.X).(*ssa.MakeSlice); isMk && strip(mk.Len) == tVal {
+						continue // the window's own buffers, indexed by j
+					}
+					add, ok := ia.Index.(*ssa.BinOp)
+					if ok && add.Op == token.ADD && ((add.X == ssa.Value(win.Idx) && add.Y == ssa.Value(inner.Idx)) || (add.Y == ssa.Value(win.Idx) && add.X == ssa.Value(inner.Idx))) {
+						nshift++
+						continue
+					}
+					okIdx = false
+				}
+			}
+		}
+		switch {
+		case tVal == nil || inner == nil:
+			c.R.Unknown(rule, Fn(D)+":windows:coverage", c.Pos(recover), "the filling of a window (a loop of t steps over the confirmation signatures) is not recognised")
+		case !okBound:
+			c.R.Fail(rule, Fn(D)+":windows:coverage", c.Pos(recover), "the number of windows is not len(participants)+1-t: "+an.Term(win.Bound)+"; signatures at the end of the list are in no verified window", "for i := range len(participants)+1-t", nil)
+		case !okIdx || nshift < 2:
+			c.R.Fail(rule, Fn(D)+":windows:coverage", c.Pos(recover), "window i is not filled from positions i .. i+t-1 of the participants and their confirmation signatures", "ids[j], sigs[j] from participants[i+j], confirmationSigs[i+j]", nil)
+		default:
+			c.R.OK(rule, Fn(D)+":windows:coverage", c.Pos(recover), "len(participants)+1-t windows, window i filled from positions i .. i+t-1: every confirmation signature is in a verified window")
+		}
+	}
 	// the key verified against is deserialised from pubKeys[0]; the data is the confirmation data sent in commit
 	okKey := false
 	keysInT := argInT(eqFn, keysRoot)
